@@ -36,48 +36,117 @@ def table():
     T = {}
 
     # ---------------- C10
+    def lazy_iterable(env, ss):
+        """re-iterable whose iterator logs effect j right before it yields source j and effect len(ss) when it
+        is asked for one more (a lazy iterable with visible side effects)"""
+        class Lazy:
+            def __iter__(self):
+                def gen():
+                    for j, s in enumerate(ss):
+                        env.effect(j)
+                        yield s
+                    env.effect(len(ss))
+                return gen()
+        return Lazy()
+
     def g_concat(rng):
-        n = rng.choice([1, 2, 3])
-        via = rng.choice(["rx.concat", "ops.concat", "iter"])
+        n = rng.choice([0, 1, 1, 2, 2, 2, 3, 3, 3, 3])
+        via = rng.choice(["rx.concat", "ops.concat", "iter", "lazy", "lazy"] if n else ["rx.concat", "iter", "lazy"])
         def build(env, ss):
             if via == "rx.concat":
                 return rx.concat(*ss)
             if via == "ops.concat":
                 return ss[0].pipe(ops.concat(*ss[1:]))
+            if via == "lazy":
+                return rx.concat_with_iterable(lazy_iterable(env, ss))
             return rx.concat_with_iterable(ss)
-        return dict(build=build, coq=f"x_concat {n}%nat", n_static=n, spec=("concat", n), **ZT)
+        coq = f"x_concat_lazy {n}%nat (fun _ => Ok tt) true" if via == "lazy" else f"x_concat {n}%nat"
+        return dict(build=build, coq=coq, n_static=n, spec=("concat", n), lazy=(via == "lazy"), via=via, **ZT)
     T["concat"] = g_concat
 
+    def g_for_in(rng):
+        # for_in(values, mapper): the sources are made by the mapper, one per value, when their turn comes
+        n = rng.choice([0, 1, 2, 2, 3, 3])
+        values = [rng.choice([0, 1, 2, 3, 4, 5, 6, 7]) for _ in range(n)]
+        ent = [("raise", 63) if rng.random() < 0.08 else ("ok", None) for _ in range(n)]
+        calls = [0]
+        argerr = []
+        lazy_values = rng.random() < 0.5
+        def build(env, ss):
+            def mapper(v):
+                j = calls[0]
+                calls[0] += 1
+                if j >= n or v != values[j]:
+                    argerr.append(f"call {j} of the mapper got {v!r}, values = {values}")
+                env.effect(j)
+                if j < n and ent[j][0] == "raise":
+                    raise UserError(ent[j][1])
+                return env.new_source().observable
+            if lazy_values:
+                class Values:
+                    def __iter__(self):
+                        return iter(list(values))
+                return rx.for_in(Values(), mapper)
+            return rx.for_in(list(values), mapper)
+        def reset():
+            calls[0] = 0
+            del argerr[:]
+        prod = "; ".join(f"({j}, " + ("Raise " + str(e[1]) if e[0] == "raise" else "Ok tt") + ")" for j, e in enumerate(ent))
+        return dict(build=build, coq=f"x_concat_lazy {n}%nat (fun j => tbl [{prod}] (Ok tt) (Z.of_nat j)) false",
+                    n_static=0, spec=("for_in", n, ent), dynamic=True, lazy=True, reset=reset, argerr=argerr, **ZT)
+    T["for_in"] = g_for_in
+
     def g_catch(rng):
-        n = rng.choice([1, 2, 3])
-        via = rng.choice(["rx.catch", "ops.catch"]) if n == 2 else "rx.catch"
+        n = rng.choice([0, 1, 1, 2, 2, 2, 3, 3, 3, 3])
+        via = rng.choice(["rx.catch", "ops.catch", "lazy"] if n == 2 else ["rx.catch", "rx.catch", "lazy"])
         def build(env, ss):
             if via == "ops.catch":
                 return ss[0].pipe(ops.catch(ss[1]))
+            if via == "lazy":
+                return rx.catch_with_iterable(lazy_iterable(env, ss))
             return rx.catch(*ss)
-        return dict(build=build, coq=f"x_catch {n}%nat", n_static=n, spec=("catch", n), **ZT)
+        coq = f"x_catch_lazy {n}%nat (fun _ => Ok tt) true" if via == "lazy" else f"x_catch {n}%nat"
+        return dict(build=build, coq=coq, n_static=n, spec=("catch", n), lazy=(via == "lazy"), via=via, **ZT)
     T["catch"] = g_catch
 
     def g_catch_handler(rng):
         raises = rng.random() < 0.3
+        hlog = []                      # (input position, exception object, source argument is the source?)
         def build(env, ss):
             def handler(e, src):
+                hlog.append((env.tag, e, src is ss[0]))
                 if raises:
                     raise UserError(62)
                 return env.new_source().observable
             return ss[0].pipe(ops.catch(handler))
         h = "(fun _ => Raise 62)" if raises else "(fun _ => Ok tt)"
         return dict(build=build, coq=f"x_catch_handler {h}", n_static=1, spec=("catch_handler", raises),
-                    dynamic=True, **ZT)
+                    dynamic=True, handler_log=hlog, reset=lambda: hlog.__delitem__(slice(None)), **ZT)
     T["catch_handler"] = g_catch_handler
 
     def g_oern(rng):
-        n = rng.choice([1, 2, 3])
+        n = rng.choice([0, 1, 1, 2, 2, 2, 3, 3, 3, 3])
+        via = "ops" if n == 2 and rng.random() < 0.3 else "rx"
+        # factory arguments: source k is given as a function of the previous source's error (None after a completion)
+        fact = [via == "rx" and rng.random() < 0.5 for _ in range(n)]
+        flog = []                      # (input position, k, argument object)
         def build(env, ss):
-            if n == 2 and rng.random() < 0.5:
+            if via == "ops":
                 return ss[0].pipe(ops.on_error_resume_next(ss[1]))
-            return rx.on_error_resume_next(*ss)
-        return dict(build=build, coq=f"x_oern {n}%nat", n_static=n, spec=("oern", n), **ZT)
+            def factory(k):
+                def f(ex):
+                    flog.append((env.tag, k, ex))
+                    env.effect(1000 * k + (0 if ex is None else k2.err_id(ex)))
+                    return ss[k]
+                return f
+            return rx.on_error_resume_next(*[factory(k) if fact[k] else ss[k] for k in range(n)])
+        if any(fact):
+            tb = "; ".join(f"{k}%nat" for k in range(n) if fact[k])
+            coq = f"x_oern_f {n}%nat (fun k => existsb (Nat.eqb k) [{tb}])"
+        else:
+            coq = f"x_oern {n}%nat"
+        return dict(build=build, coq=coq, n_static=n, spec=("oern", n), factories=fact, factory_log=flog,
+                    reset=lambda: flog.__delitem__(slice(None)), **ZT)
     T["on_error_resume_next"] = g_oern
 
     def g_repeat(rng):
@@ -113,8 +182,8 @@ def table():
 
     # ---------------- C11
     def g_merge(rng):
-        n = rng.choice([1, 2, 3])
-        via = rng.choice(["rx.merge", "ops.merge"])
+        n = rng.choice([0, 1, 1, 2, 2, 2, 3, 3, 3, 3])
+        via = rng.choice(["rx.merge", "ops.merge"]) if n else "rx.merge"
         def build(env, ss):
             if via == "ops.merge":
                 return ss[0].pipe(ops.merge(*ss[1:]))
@@ -126,9 +195,36 @@ def table():
         ent = counted_table(rng, n, p_raise, kind="unit")
         return ent
 
+    def deep_queue_events(rng, nsrc):
+        """interleavings for max_concurrent: the outer delivers 3-5 inners early, the inners end later in a random
+        order, so that several inners wait in the queue at once"""
+        evs, t = [], 0
+        for _ in range(rng.choice([3, 4, 5])):
+            t += rng.choice([0, 5, 10])
+            evs.append((t, 0, ("N", rng.randrange(10))))
+        r = rng.random()
+        tt = t + rng.choice([0, 10, 200, 400])
+        if r < 0.6:
+            evs.append((tt, 0, ("C",)))
+        elif r < 0.7:
+            evs.append((tt, 0, ("E", UserError(11))))
+        for k in range(1, nsrc):
+            tk = t + rng.choice([10, 20, 50, 100])
+            for _ in range(rng.choice([0, 1, 2])):
+                tk += rng.choice([0, 10, 30])
+                evs.append((tk, k, ("N", rng.randrange(10))))
+            tk += rng.choice([0, 10, 30, 100])
+            r = rng.random()
+            if r < 0.8:
+                evs.append((tk, k, ("C",)))
+            elif r < 0.88:
+                evs.append((tk, k, ("E", UserError(12))))
+        evs.sort(key=lambda e: e[0])
+        return evs
+
     def g_flat_map(rng, which="flat_map"):
         ent = counted_table(rng, 8, 0.15, kind="unit")
-        mc = rng.choice([1, 2]) if which == "merge_mc" else None
+        mc = rng.choice([1, 2, 3]) if which == "merge_mc" else None
         calls = [0]
         def build(env, ss):
             def mapper(x, i=None):
@@ -166,15 +262,16 @@ def table():
             coq = f"x_merge_concurrent {mc}%nat {m}"
         else:
             coq = f"x_switch_map {m}"
+        extra = dict(gen_events=deep_queue_events) if which in ("merge_mc", "concat_map") else {}
         return dict(build=build, coq=coq, n_static=1, spec=(which, ent, mc), dynamic=True,
-                    reset=lambda: calls.__setitem__(0, 0), **ZT)
+                    reset=lambda: calls.__setitem__(0, 0), **extra, **ZT)
     for w in ("flat_map", "flat_map_indexed", "merge_all", "concat_map", "merge_mc",
               "switch_map", "switch_map_indexed", "flat_map_latest", "switch_latest"):
         T[w] = (lambda w: (lambda rng: g_flat_map(rng, w)))(w)
 
     # ---------------- C13
     def g_zip(rng):
-        n = rng.choice([1, 2, 3])
+        n = rng.choice([1, 2, 2, 3, 3, 4])
         via = rng.choice(["rx.zip", "ops.zip"])
         def build(env, ss):
             return ss[0].pipe(ops.zip(*ss[1:])) if via == "ops.zip" else rx.zip(*ss)
@@ -182,7 +279,7 @@ def table():
     T["zip"] = g_zip
 
     def g_cl(rng):
-        n = rng.choice([1, 2, 3])
+        n = rng.choice([1, 2, 2, 3, 3, 4])
         via = rng.choice(["rx", "ops"])
         def build(env, ss):
             return ss[0].pipe(ops.combine_latest(*ss[1:])) if via == "ops" else rx.combine_latest(*ss)
@@ -190,7 +287,7 @@ def table():
     T["combine_latest"] = g_cl
 
     def g_wlf(rng):
-        n = rng.choice([0, 1, 2])
+        n = rng.choice([0, 1, 1, 2, 2, 3])
         via = rng.choice(["rx", "ops"])
         def build(env, ss):
             return ss[0].pipe(ops.with_latest_from(*ss[1:])) if via == "ops" else rx.with_latest_from(ss[0], *ss[1:])
@@ -199,7 +296,7 @@ def table():
     T["with_latest_from"] = g_wlf
 
     def g_fj(rng):
-        n = rng.choice([1, 2, 3])
+        n = rng.choice([1, 2, 2, 3, 3, 4])
         via = rng.choice(["rx", "ops"])
         def build(env, ss):
             return ss[0].pipe(ops.fork_join(*ss[1:])) if via == "ops" else rx.fork_join(*ss)
@@ -207,7 +304,7 @@ def table():
     T["fork_join"] = g_fj
 
     def g_amb(rng):
-        n = rng.choice([1, 2, 3])
+        n = rng.choice([1, 2, 2, 3, 3, 4])
         via = "ops" if n == 2 and rng.random() < 0.5 else "rx"
         def build(env, ss):
             return ss[0].pipe(ops.amb(ss[1])) if via == "ops" else rx.amb(*ss)
@@ -231,56 +328,96 @@ def table():
 IMPORTS = "Base.Prelude Base.CaseLib Ops.Machine Ops.Multi Ops.MultiCase Ops.Combinators"
 
 
+def _cases(rng, names, ncase, extra_sources, p_dispose, p_sub_raises, hist):
+    """the seeded case stream of run_ops: yields (name, ci, inst, res).  Everything is drawn from `rng` in a fixed
+    order, so the stream is reproducible from the seed (used by rerun_case)."""
+    T = table()
+    for name in names:
+        for ci in range(ncase):
+            inst = T[name](rng)
+            nsrc = inst["n_static"] + (extra_sources if inst.get("dynamic") else 0)
+            if inst.get("gen_events") and rng.random() < 0.5:
+                evs = inst["gen_events"](rng, nsrc)
+                hist["operator_specific_interleavings"] = hist.get("operator_specific_interleavings", 0) + 1
+            else:
+                evs = k2m.gen_events(rng, nsrc, maxlen=4)
+            for flag, label in (("lazy", "lazy_iterable_with_logged_effects"), ("factories", "factory_arguments")):
+                if inst.get(flag) and (flag != "factories" or any(inst[flag])):
+                    hist[label] = hist.get(label, 0) + 1
+            if inst["n_static"] == 0 and (not inst.get("dynamic") or inst["spec"][1] == 0):
+                hist["zero_sources"] = hist.get("zero_sources", 0) + 1
+            if len({e[0] for e in evs}) < len(evs):
+                hist["same_instant_events"] += 1
+            disp = None
+            if rng.random() < p_dispose and evs:
+                disp = rng.choice(evs)[0]
+                hist["with_dispose"] += 1
+            warm = None
+            if rng.random() < 0.35:
+                warm = k2m.gen_events(rng, nsrc, maxlen=3, p_none=0.5)
+                hist["resubscribed"] = hist.get("resubscribed", 0) + 1
+            sraise = rng.random() < p_sub_raises
+            if sraise:
+                hist["subscriber_terminal_callback_raises"] = hist.get("subscriber_terminal_callback_raises", 0) + 1
+            res = k2m.run_multi(inst["build"], inst["n_static"], evs, dispose_at=disp, warmup=warm,
+                                after_warmup=inst.get("reset"), subscriber_raises=sraise)
+            if res["build_error"] is not None:
+                raise RuntimeError(f"{name}: build error {res['build_error']!r}")
+            yield name, ci, inst, res
+
+
+def _verdict(oracle, name, inst, res):
+    v = oracle(name, inst, res)
+    if res["escapes"]:
+        v = v or f"exception escaped into the emitter: {[repr(e) for _, e in res['escapes']]}"
+    return v
+
+
+def rerun_case(rerun, oracle):
+    """re-create the run_ops case recorded in a replay file (`rerun` entry) from its seed and judge it again on
+    the current tree: -> (verdict or None, rendered inputs, rendered trace)"""
+    import random
+    hist = {"with_dispose": 0, "nonconforming_tail": 0, "dynamic_inners": 0, "same_instant_events": 0}
+    rng = random.Random(rerun["seed"])
+    for name, ci, inst, res in _cases(rng, rerun["names"], rerun["ncase"], rerun["extra_sources"],
+                                      rerun["p_dispose"], rerun["p_sub_raises"], hist):
+        if name == rerun["operator"] and ci == rerun["case_index"]:
+            return _verdict(oracle, name, inst, res), k2m.g_inputs(res["inputs"]), k2m.g_trace(res, inst["enc"])
+    raise RuntimeError("case not found in the seeded stream")
+
+
 def run_ops(chk, pid, names, oracle, ncase=None, extra_sources=3, p_dispose=0.15, p_sub_raises=0.0):
     """generic loop: for each operator name, seeded instances x seeded event
-    interleavings; correspondence with the machine + the property oracle."""
+    interleavings; correspondence with the machine + the property oracle.
+    Must be the first consumer of chk.rng (rerun_case re-creates the stream from chk.seed)."""
     import lib
-    T = table()
     ncase = ncase or (40 if chk.tier == "quick" else 500)
     gal = {}
     per_op = {}
     nontrivial = set()
     hist = {"with_dispose": 0, "nonconforming_tail": 0, "dynamic_inners": 0, "same_instant_events": 0}
-    for name in names:
-        for ci in range(ncase):
-            inst = T[name](chk.rng)
-            nsrc = inst["n_static"] + (extra_sources if inst.get("dynamic") else 0)
-            evs = k2m.gen_events(chk.rng, nsrc, maxlen=4)
-            if len({e[0] for e in evs}) < len(evs):
-                hist["same_instant_events"] += 1
-            disp = None
-            if chk.rng.random() < p_dispose and evs:
-                disp = chk.rng.choice(evs)[0]
-                hist["with_dispose"] += 1
-            warm = None
-            if chk.rng.random() < 0.35:
-                warm = k2m.gen_events(chk.rng, nsrc, maxlen=3, p_none=0.5)
-                hist["resubscribed"] = hist.get("resubscribed", 0) + 1
-            sraise = chk.rng.random() < p_sub_raises
-            if sraise:
-                hist["subscriber_terminal_callback_raises"] = hist.get("subscriber_terminal_callback_raises", 0) + 1
-            res = k2m.run_multi(inst["build"], inst["n_static"], evs, dispose_at=disp, warmup=warm,
-                                after_warmup=inst.get("reset"), subscriber_raises=sraise)
-            chk.cov["evaluations"] += 1
-            per_op[name] = per_op.get(name, 0) + 1
-            if res["build_error"] is not None:
-                raise RuntimeError(f"{name}: build error {res['build_error']!r}")
-            if len(res["env"].sources) > inst["n_static"]:
-                hist["dynamic_inners"] += 1
-            gi = k2m.g_inputs(res["inputs"])
-            gt = k2m.g_trace(res, inst["enc"])
-            sig = f"{name}|{inst['coq']}|{gi}"
-            v = oracle(name, inst, res)
-            if res["escapes"]:
-                v = v or f"exception escaped into the emitter: {[repr(e) for _, e in res['escapes']]}"
-            if v:
-                chk.violation(f"{pid}|{name}|{v[:50]}", {"operator": name, "machine": inst["coq"],
-                                                         "inputs (now, event)": gi, "observed trace": gt,
-                                                         "what": v}, size=len(res["inputs"]))
-            elif sum(1 for e in res["log"] if e[1] == "emit") >= 2:
-                nontrivial.add(sig)
-            key = (inst["ty"], inst["eqb"])
-            gal.setdefault(key, []).append((f"({inst['coq']}, {gi})", gt))
+    fresh = chk.rng.getstate() == __import__("random").Random(chk.seed).getstate()
+    for name, ci, inst, res in _cases(chk.rng, names, ncase, extra_sources, p_dispose, p_sub_raises, hist):
+        chk.cov["evaluations"] += 1
+        per_op[name] = per_op.get(name, 0) + 1
+        if len(res["env"].sources) > inst["n_static"]:
+            hist["dynamic_inners"] += 1
+        gi = k2m.g_inputs(res["inputs"])
+        gt = k2m.g_trace(res, inst["enc"])
+        sig = f"{name}|{inst['coq']}|{gi}"
+        v = _verdict(oracle, name, inst, res)
+        if v:
+            rep = {"operator": name, "machine": inst["coq"], "inputs (now, event)": gi, "observed trace": gt,
+                   "what": v}
+            if fresh:
+                rep["rerun"] = {"family": "run_ops", "seed": chk.seed, "names": list(names), "ncase": ncase,
+                                "extra_sources": extra_sources, "p_dispose": p_dispose,
+                                "p_sub_raises": p_sub_raises, "operator": name, "case_index": ci}
+            chk.violation(f"{pid}|{name}|{v[:50]}", rep, size=len(res["inputs"]))
+        elif sum(1 for e in res["log"] if e[1] == "emit") >= 2:
+            nontrivial.add(sig)
+        key = (inst["ty"], inst["eqb"])
+        gal.setdefault(key, []).append((f"({inst['coq']}, {gi})", gt))
     for (ty, eqb), cases in gal.items():
         prelude = f"Definition model (c : machine Z {ty} * list (Z * inp Z)) := run_canon (fst c) (snd c).\n"
         bad, logs = lib.correspondence(pid, "m_" + str(abs(hash((ty, eqb))) % 10**6), IMPORTS,
